@@ -108,6 +108,15 @@ pub fn run(tier: Tier) -> i32 {
             }
         }
     }
+    // the other image of the same build result is large as well (both images come out of one
+    // generator call: nothing of the one may show in the other)
+    for l in [0usize, 1, 16, 17, 600, 65535, 65536, 65537] {
+        for other in [1usize, 16, 65535, 65536, 65537, 131072, 1048577] {
+            for writer_code in [true, false] {
+                work.push((writer_code, l, 0, other, "other-image-large".to_string()));
+            }
+        }
+    }
     let evals = AtomicU64::new(0);
     let bytes_checked = AtomicU64::new(0);
     work.par_iter().enumerate().for_each(|(id, (writer_code, len, pat, other, class))| {
@@ -144,18 +153,26 @@ pub fn run(tier: Tier) -> i32 {
     {
         let fail_targets: Vec<std::path::PathBuf> = vec![scratch.path.join("no_such_dir/x.hex"), scratch.path.clone(), std::path::PathBuf::from("/dev/full")];
         let mut id = 20_000_000usize;
+        let exe = std::env::current_exe().unwrap_or_else(|e| machinery_fail(&format!("current_exe: {}", e)));
         for (fi, ft) in fail_targets.iter().enumerate() {
             for first_code in [true, false] {
                 for second_code in [true, false] {
                     for (l1, l2) in [(40usize, 16usize), (16, 40), (700, 0), (0, 33), (70000, 5)] {
                         id += 1;
-                        let failing = if first_code { built(pattern(2, l1), vec![]) } else { built(vec![], pattern(2, l1)) };
-                        let r = if first_code { sut::write_code_hex(ft.clone(), &failing) } else { sut::write_eeprom_hex(ft.clone(), &failing) };
-                        // (an empty image to /dev/full writes only the EOF record: it may or may not fail)
-                        let _ = r;
                         n_after_fail.fetch_add(1, Ordering::Relaxed);
                         evals.fetch_add(1, Ordering::Relaxed);
-                        if let Some((kind, detail)) = check_one(&scratch.path, id, second_code, l2, 0, 0) {
+                        // /dev/full can be opened and read without end: a writer that looks at what the
+                        // path holds must not be able to exhaust this process, so that pair runs in a
+                        // child with 2 GiB of address space and a 30 s watchdog
+                        let outcome: Option<(String, String)> = if fi == 2 {
+                            run_in_child(&exe, &scratch.path, id, first_code, second_code, l1, l2)
+                        } else {
+                            let failing = if first_code { built(pattern(2, l1), vec![]) } else { built(vec![], pattern(2, l1)) };
+                            // (the result of the first write is not looked at here)
+                            let _ = if first_code { sut::write_code_hex(ft.clone(), &failing) } else { sut::write_eeprom_hex(ft.clone(), &failing) };
+                            check_one(&scratch.path, id, second_code, l2, 0, 0)
+                        };
+                        if let Some((kind, detail)) = outcome {
                             let w = if second_code { "code" } else { "eeprom" };
                             rep.violation(
                                 &format!("C07/{}/writer={}/after-failed-write-to={}", kind, w, ["missing-directory", "a-directory", "dev-full"][fi]),
@@ -178,7 +195,7 @@ pub fn run(tier: Tier) -> i32 {
     let coverage = cov(json!({
         "evaluations": evals.load(Ordering::Relaxed),
         "distinct_nontrivial": distinct_lengths.len() - 1,
-        "rule": "every image length 0..600 and every length within +-17 of k*64KiB (quick k in {1,2,kmax}, thorough k = 1..kmax, kmax = largest flash / 64 KiB) up to the largest flash in the device table; contents = position-hash pattern (a misplaced byte is seen), all-00, all-FF; both writers, the other image empty and non-empty; each written file is decoded by the harness's strict reader and compared with the image address by address. distinct_nontrivial = distinct non-zero image lengths",
+        "rule": "every image length 0..600 and every length within +-17 of k*64KiB (quick k in {1,2,kmax}, thorough k = 1..kmax, kmax = largest flash / 64 KiB) up to the largest flash in the device table; contents = position-hash pattern (a misplaced byte is seen), all-00, all-FF; both writers, the other image empty and non-empty (3 bytes; for 8 lengths also 7 sizes from 1 byte to beyond 1 MiB); each written file is decoded by the harness's strict reader and compared with the image address by address. distinct_nontrivial = distinct non-zero image lengths",
         "exhaustive": true,
         "distinct_lengths": distinct_lengths.len(),
         "image_bytes_compared": bytes_checked.load(Ordering::Relaxed),
@@ -191,6 +208,72 @@ pub fn run(tier: Tier) -> i32 {
     }));
     drop(scratch);
     rep.finish(coverage)
+}
+
+/// `vcheck worker07 <dir> <id> <first_code> <second_code> <l1> <l2>`: a write to /dev/full followed
+/// by an ordinary write, in a process of its own; prints `ok` or `<kind>\t<detail>`
+pub fn worker_main(args: &[String]) -> i32 {
+    let lim = libc::rlimit { rlim_cur: 2 << 30, rlim_max: 2 << 30 };
+    unsafe {
+        libc::setrlimit(libc::RLIMIT_AS, &lim);
+    }
+    let dir = std::path::PathBuf::from(&args[2]);
+    let id: usize = args[3].parse().unwrap_or(0);
+    let (first_code, second_code) = (args[4] == "1", args[5] == "1");
+    let (l1, l2): (usize, usize) = (args[6].parse().unwrap_or(0), args[7].parse().unwrap_or(0));
+    let failing = if first_code { built(pattern(2, l1), vec![]) } else { built(vec![], pattern(2, l1)) };
+    let target = std::path::PathBuf::from("/dev/full");
+    let _ = if first_code { sut::write_code_hex(target, &failing) } else { sut::write_eeprom_hex(target, &failing) };
+    match check_one(&dir, id, second_code, l2, 0, 0) {
+        None => println!("ok"),
+        Some((k, d)) => println!("{}\t{}", k, d.replace('\n', " ")),
+    }
+    0
+}
+
+fn run_in_child(exe: &std::path::Path, dir: &std::path::Path, id: usize, first_code: bool, second_code: bool, l1: usize, l2: usize) -> Option<(String, String)> {
+    use std::process::{Command, Stdio};
+    let mut child = Command::new(exe)
+        .arg("worker07")
+        .arg(dir)
+        .arg(id.to_string())
+        .arg(if first_code { "1" } else { "0" })
+        .arg(if second_code { "1" } else { "0" })
+        .arg(l1.to_string())
+        .arg(l2.to_string())
+        .stdout(Stdio::piped())
+        .stderr(Stdio::null())
+        .spawn()
+        .unwrap_or_else(|e| machinery_fail(&format!("cannot spawn worker07: {}", e)));
+    let start = std::time::Instant::now();
+    loop {
+        match child.try_wait() {
+            Ok(Some(status)) => {
+                let mut out = String::new();
+                if let Some(mut so) = child.stdout.take() {
+                    use std::io::Read;
+                    let _ = so.read_to_string(&mut out);
+                }
+                let line = out.lines().last().unwrap_or("").to_string();
+                if line == "ok" {
+                    return None;
+                }
+                if let Some((k, d)) = line.split_once('\t') {
+                    return Some((k.to_string(), d.to_string()));
+                }
+                return Some(("writer-died".into(), format!("the process writing to /dev/full and then to an ordinary file ended with {} and no verdict (memory limit 2 GiB)", status)));
+            }
+            Ok(None) => {
+                if start.elapsed().as_secs() > 30 {
+                    let _ = child.kill();
+                    let _ = child.wait();
+                    return Some(("writer-hangs".into(), "writing to /dev/full and then to an ordinary file does not finish within 30 s".into()));
+                }
+                std::thread::sleep(std::time::Duration::from_millis(5));
+            }
+            Err(e) => machinery_fail(&format!("waiting for worker07: {}", e)),
+        }
+    }
 }
 
 /// `./run replay <file>` for kind "hex"
